@@ -1,27 +1,32 @@
 import HioModel.Store.Refine
 import HioModel.Store.Plain
 import HioModel.Store.Reach
+import HioModel.Store.Converse
+import HioModel.Store.Branch
 /-!
 # C24 — keyed durable stores match a dictionary model for all keys
 
-Property theorems only.  Model: `HioModel/Store/Model.lean` (faithful to `hio.base.during` on the `fix/store`
-tree); constants and `suffix`/`unsuffix` probes regenerated from the source on every run
-(`HioModel/Gen/StoreConsts.lean`).
+Property theorems only.  Model: `HioModel/Store/Model.lean` (faithful to `hio.base.during` on the tree with F37 repaired);
+constants and `suffix`/`unsuffix` probes regenerated from the source on every run (`HioModel/Gen/StoreConsts.lean`).
 
-FULL STATEMENT (what the property asks): for EVERY key set `K` and every history `ops` of put / pin / add / get /
-pop / rem / cnt over `K`,
+FULL STATEMENT (what the property asks): for EVERY key set `K` and every history `ops` over `K`,
     `(run kind watch [] ops).1 = specRun … ops`   (the sub-db answers like `Key → Val` / `Key → List Val` /
     `Key → ordered set`), and an operation on one key never changes what `get` of another key returns.
-* plain `Suber`: proved at full strength (`plain_refines_dict`).
-* `IoSuber` / `IoSetSuber`: FALSE without a guard on the key set (`refines_dict_fails_without_guard`, DESIGN F39:
-  with keys `k` and `k.<32 hex of 0>` a `get(k)` returns one of three values, `cnt` is 1 and the next `add`
-  overwrites a stored value; `getLast_fails_without_guard`: keys `a` and `a.b` suffice for `getLast`).  Proved for every
-  history over a key set in which no key extends another key ++ separator (`SepFree`) — `io_refines_dict_partial`,
-  `ioset_refines_dict_partial`, `other_key_unchanged_partial`.  The unguarded cases are known findings C24-K1 / C24-K2.
-* `getItemIter` and `cntAll` are carried by the correspondence only (not in the dictionary language here);
-  `getFirst` / `getLast` are in it (head / last of the list).
-* ordinals: a history may consume at most `16^32` ordinals (`totalWeight ops ≤ 16^W`); beyond that the code
-  prints a longer suffix and the model raises `OrdinalOverflow`.
+* plain `Suber`: proved at full strength (`plain_refines_dict`, `plain_getItemIter_spec`, `plain_cntAll_spec`, `plain_trim_spec`).
+* `IoSuber` / `IoSetSuber`: FALSE for some key sets (`refines_dict_fails_without_guard`, DESIGN F39; `getLast_fails_without_guard`).
+  Proved under the EXACT guard `ExactAt K k (β k)`: no other key of `K` has its ordinal-0 entry strictly between `suffix k 0`
+  and `suffix k (β k)`, where `β k` ≥ the number of ordinals the history consumes, and `β k = MaxSuffix` for the keys `getLast`
+  is asked about — `io_refines_dict_partial`, `ioset_refines_dict_partial`, `other_key_unchanged_partial`, `getLast_partial`.
+  This guard is the complement of the known-finding triggers C24-K1 / C24-K2, and it is NECESSARY:
+  `exact_guard_necessary` builds, from a violated pair, a three-operation history over `{k, k'}` on which store and dictionary
+  differ (consuming ≤ N + 2 ordinals when the pair is violated at bound N); `exact_guard_necessary_last` does the same for getLast.
+  At the level of one database: `scan_sees_all_under_guard` / `scan_short_without_contiguity` (contiguity ⇔ `get` correct).
+  The simple guard `SepFree` (no key extends another key ++ sep) implies the exact one (`*_sepfree` corollaries).
+* whole-sub-db methods of the io kinds hold with NO guard: `io_items_cntAll_spec`, `io_trim_all_spec`, `reachable_inv`,
+  `reachable_no_valueError`.  `getItemIter(top)` / `trim(top)` of the io kinds with a NON-EMPTY top select by the SUFFIXED key
+  (not a dictionary notion): modelled (`topItems`, `remTop`), tied by the correspondence only.
+* ordinals: a history may consume fewer than `16^32` ordinals; beyond that the code prints a longer suffix and the model
+  raises `OrdinalOverflow`.
 -/
 namespace Hio.Store
 
@@ -36,17 +41,30 @@ theorem suffix_order (k : Bytes) (i j : Nat) (hi : i < 16 ^ W) (hj : j < 16 ^ W)
 theorem unsuffix_suffix_id (k : Bytes) (i : Nat) (hi : i < 16 ^ W) : unsuffix (suffix k i) = some (k, i) :=
   unsuffix_suffix k hi
 
-/-- CONTIGUITY (DESIGN A.3): in a well-formed sub-db in which no other key extends `k ++ sep`, whatever sorts at
-or after the first possible entry of `k` and before an entry of `k` is itself an entry of `k` — so every
-scan loop, which stops at the first foreign key, sees all entries of `k`. -/
-theorem contiguous_under_guard (db : Db) (hinv : Inv db) (k : Bytes) (hnc : NoChild k db) (x e : Entry)
-    (hx : x ∈ db) (he : e ∈ db) (hke : ckeyIs k e = true)
-    (hlo : lexLt x.1 (suffix k 0) = false) (hhi : lexLt x.1 e.1 = true) : ckeyIs k x = true :=
-  contiguous hinv hnc hx he hke hlo hhi
+/-! ## contiguity: the exact condition of the scan loops -/
 
-/-- … and therefore the scan for `k` returns exactly the entries of `k` -/
+/-- CONTIGUITY from the exact key-set guard: in a well-formed sub-db whose apparent keys lie in `K`, if no other key of `K`
+has its ordinal-0 entry between `suffix k 0` and `suffix k B`, and the ordinals of `k` are ≤ B, then whatever sorts at or
+after `suffix k 0` and before an entry of `k` is an entry of `k` (`NoChild k db`). -/
+theorem contiguous_under_exact_guard (K : Bytes → Prop) (db : Db) (hinv : Inv db)
+    (hkeys : ∀ e ∈ db, ∃ k, K k ∧ ckeyIs k e = true) (k : Bytes) (B : Nat) (hE : ExactAt K k B) (hB : B < 16 ^ W)
+    (hions : KIonsBelow k (B + 1) db) (x e : Entry) (hx : x ∈ db) (he : e ∈ db) (hke : ckeyIs k e = true)
+    (hlo : lexLt x.1 (suffix k 0) = false) (hhi : lexLt x.1 e.1 = true) : ckeyIs k x = true :=
+  noChild_of_exact hinv hkeys hE hB hions x hx e he hke hlo hhi
+
+/-- CONTIGUITY from the simple guard (DESIGN A.3): no other apparent key extends `k ++ sep` -/
+theorem contiguous_under_guard (db : Db) (hinv : Inv db) (k : Bytes) (hnc : NoChildSyn k db) : NoChild k db :=
+  noChild_of_syn hinv hnc
+
+/-- contiguity ⇒ the scan for `k` returns exactly the entries of `k` … -/
 theorem scan_sees_all_under_guard (db : Db) (hinv : Inv db) (k : Bytes) (hnc : NoChild k db) :
     getIoVals db k = .ok (absIo db k) := getIoVals_spec hinv hnc
+
+/-- … and without it `get(k)` returns strictly fewer values than the dictionary holds (so contiguity is exactly right) -/
+theorem scan_short_without_contiguity (db : Db) (hinv : Inv db) (k : Bytes) (x e : Entry) (hx : x ∈ db) (he : e ∈ db)
+    (hke : ckeyIs k e = true) (hlo : lexLt x.1 (suffix k 0) = false) (hhi : lexLt x.1 e.1 = true) (hxk : ckeyIs k x = false) :
+    ∃ vs, getIoVals db k = .ok vs ∧ vs.length < (absIo db k).length :=
+  get_short_of_not_contiguous hinv hx he hke hlo hhi hxk
 
 /-! ## refinement -/
 
@@ -56,23 +74,36 @@ theorem plain_refines_dict (watch : List Bytes) (hwatch : ∀ w ∈ watch, valid
     (run .plain watch [] ops).1 = out :=
   plain_run_refines watch hwatch ops [] _ ⟨sorted_nil, fun _ => rfl⟩ out h
 
-/-- IoSuber = dictionary `Key → List Val` (partial: key set sep-prefix-free).  For every such key set `K`, every
-history over `K` in the dictionary language, and every watched key, each result and each `get` after each
-operation is what the dictionary gives. -/
-theorem io_refines_dict_partial (K : Bytes → Prop) (hK : SepFree K) (hvk : ∀ k, K k → validKey (suffix k 0) = true)
+/-- IoSuber = dictionary `Key → List Val` under the EXACT guard.  For every key set `K`, bound `β`, every history over `K`
+in the dictionary language (add put pin get iter getFirst getLast pop rem cnt), every watched key: each result and each `get`
+after each operation is what the dictionary gives. -/
+theorem io_refines_dict_partial (K : Bytes → Prop) (β : Bytes → Nat) (hG : ∀ k, K k → ExactAt K k (β k))
+    (hvk : ∀ k, K k → validKey (suffix k 0) = true)
     (watch : List Bytes) (hwatch : ∀ w ∈ watch, K w) (ops : List Op)
-    (hkeys : ∀ op ∈ ops, ∀ k, opKey op = some k → K k) (hfit : totalWeight ops ≤ 16 ^ W)
+    (hkeys : ∀ op ∈ ops, ∀ k, opKey op = some k → K k) (hfit : totalWeight ops < 16 ^ W)
+    (hβ : ∀ k, K k → totalWeight ops ≤ β k ∧ β k < 16 ^ W) (hlast : ∀ k, Op.last k ∈ ops → β k = maxSuffix)
     (out : List (Res × List Res)) (h : specRun false watch (fun _ => []) ops = some out) :
     (run .io watch [] ops).1 = out :=
-  io_run_refines hK hvk false watch hwatch ops 0 [] _ (rel_nil K) hkeys (by omega) out h
+  io_run_refines β hG hvk false watch hwatch ops 0 [] _ (rel_nil K) hkeys (by simpa using hβ) (by omega) hlast out h
 
-/-- IoSetSuber = dictionary `Key → insertion-ordered set` (partial: key set sep-prefix-free). -/
-theorem ioset_refines_dict_partial (K : Bytes → Prop) (hK : SepFree K) (hvk : ∀ k, K k → validKey (suffix k 0) = true)
+/-- IoSetSuber = dictionary `Key → insertion-ordered set` under the EXACT guard (incl. rem(val)). -/
+theorem ioset_refines_dict_partial (K : Bytes → Prop) (β : Bytes → Nat) (hG : ∀ k, K k → ExactAt K k (β k))
+    (hvk : ∀ k, K k → validKey (suffix k 0) = true)
     (watch : List Bytes) (hwatch : ∀ w ∈ watch, K w) (ops : List Op)
-    (hkeys : ∀ op ∈ ops, ∀ k, opKey op = some k → K k) (hfit : totalWeight ops ≤ 16 ^ W)
+    (hkeys : ∀ op ∈ ops, ∀ k, opKey op = some k → K k) (hfit : totalWeight ops < 16 ^ W)
+    (hβ : ∀ k, K k → totalWeight ops ≤ β k ∧ β k < 16 ^ W) (hlast : ∀ k, Op.last k ∈ ops → β k = maxSuffix)
     (out : List (Res × List Res)) (h : specRun true watch (fun _ => []) ops = some out) :
     (run .ioset watch [] ops).1 = out :=
-  io_run_refines hK hvk true watch hwatch ops 0 [] _ (rel_nil K) hkeys (by omega) out h
+  io_run_refines β hG hvk true watch hwatch ops 0 [] _ (rel_nil K) hkeys (by simpa using hβ) (by omega) hlast out h
+
+/-- corollary for the simple guard: a key set in which no key extends another key ++ sep, any history, incl. getLast -/
+theorem io_refines_dict_sepfree (set : Bool) (K : Bytes → Prop) (hK : SepFree K) (hvk : ∀ k, K k → validKey (suffix k 0) = true)
+    (watch : List Bytes) (hwatch : ∀ w ∈ watch, K w) (ops : List Op)
+    (hkeys : ∀ op ∈ ops, ∀ k, opKey op = some k → K k) (hfit : totalWeight ops < 16 ^ W)
+    (out : List (Res × List Res)) (h : specRun set watch (fun _ => []) ops = some out) :
+    (run (kindOf set) watch [] ops).1 = out :=
+  io_run_refines (fun _ => maxSuffix) (fun k hk => exactAt_of_sepFree hK hk maxSuffix) hvk set watch hwatch ops 0 [] _ (rel_nil K) hkeys
+    (fun _ _ => ⟨by have := maxSuffix_succ; omega, maxSuffix_lt⟩) (by omega) (fun _ _ => rfl) out h
 
 /-- the ordered-set dictionary really holds sets: no operation of the specification introduces a duplicate -/
 theorem spec_ioset_add_nodup (l : List Bytes) (v : Bytes) (h : l.Nodup) :
@@ -87,16 +118,73 @@ theorem spec_ioset_add_nodup (l : List Bytes) (v : Bytes) (h : l.Nodup) :
     intro e; subst e
     exact hc (List.contains_iff_mem.mpr ha)
 
-/-- OTHER KEYS (partial, same guard): from any state that represents a dictionary over a sep-prefix-free key
-set, an operation on `k` leaves `get k'` unchanged for every other key `k'` of the set. -/
-theorem other_key_unchanged_partial (K : Bytes → Prop) (hK : SepFree K) (hvk : ∀ k, K k → validKey (suffix k 0) = true)
+/-- OTHER KEYS (same exact guard): from any state that represents a dictionary over `K`, an operation on `k` leaves
+`get k'` unchanged for every other key `k'` of the set. -/
+theorem other_key_unchanged_partial (K : Bytes → Prop) (β : Bytes → Nat) (hG : ∀ k, K k → ExactAt K k (β k))
+    (hvk : ∀ k, K k → validKey (suffix k 0) = true)
     (set : Bool) (n : Nat) (db : Db) (σ : St) (hr : Rel K n db σ) (op : Op) (σ' : St) (r : Res)
     (hspec : specIo set σ op = some (σ', r)) (k k' : Bytes) (hop : opKey op = some k) (hk : K k) (hk' : K k')
-    (hne : k' ≠ k) (hfit : n + opWeight op ≤ 16 ^ W) :
+    (hne : k' ≠ k) (hfit : n + opWeight op ≤ 16 ^ W) (hβ : ∀ k, K k → n + opWeight op ≤ β k ∧ β k < 16 ^ W)
+    (hlast : ∀ k, op = .last k → β k = maxSuffix) :
     observe (kindOf set) (step (kindOf set) db op).1 k' = observe (kindOf set) db k' := by
-  obtain ⟨db', h1, h2⟩ := io_step_refines hK hvk set hr op hspec
+  obtain ⟨db', h1, h2⟩ := io_step_refines β hG hvk set hr op hspec
     (fun k0 h0 => by rw [hop] at h0; cases h0; exact hk) hfit
-  rw [h1, observe_spec hK set h2 hk', observe_spec hK set hr hk', specIo_frame hspec hop hne]
+    (fun k hk => ⟨by have := (hβ k hk).1; omega, (hβ k hk).2⟩) hlast
+  rw [h1, observe_spec set h2 (hG k' hk') (hβ k' hk').2 (hβ k' hk').1,
+    observe_spec set hr (hG k' hk') (hβ k' hk').2 (by have := (hβ k' hk').1; omega), specIo_frame hspec hop hne]
+
+/-- getLast (exact guard at MaxSuffix): the last element of the dictionary's list -/
+theorem getLast_partial (K : Bytes → Prop) (db : Db) (hinv : Inv db) (hkeys : ∀ e ∈ db, ∃ k, K k ∧ ckeyIs k e = true)
+    (k : Bytes) (hE : ExactAt K k maxSuffix) : getIoValLast db k = .ok (absIo db k).getLast? :=
+  getIoValLast_spec hinv (noChildMax_of_exact hinv hkeys hE)
+
+/-! ## the exact guard is necessary -/
+
+/-- NECESSITY (complement of the C24-K1 trigger): if `suffix k 0 < suffix k' 0 < suffix k N`, there is a history over
+`{k, k'}` consuming at most `N + 2` ordinals that the store answers differently from the dictionary. -/
+theorem exact_guard_is_necessary (k k' : Bytes) (hne : k' ≠ k) (hk : validKey (suffix k 0) = true)
+    (hk' : validKey (suffix k' 0) = true) (N : Nat) (hN : N + 2 ≤ 16 ^ W)
+    (h1 : lexLt (suffix k 0) (suffix k' 0) = true) (h2 : lexLt (suffix k' 0) (suffix k N) = true) :
+    ∃ ops out, (∀ op ∈ ops, opKey op = some k ∨ opKey op = some k') ∧ totalWeight ops ≤ N + 2 ∧
+      specRun false [] (fun _ => []) ops = some out ∧ (run .io [] [] ops).1 ≠ out :=
+  exact_guard_necessary k k' hne hk hk' N hN h1 h2
+
+/-- NECESSITY for getLast (complement of the C24-K2 trigger): `add k; add k'; getLast k` answers None, the dictionary `v` -/
+theorem exact_guard_is_necessary_last (k k' : Bytes) (hne : k' ≠ k) (hk : validKey (suffix k 0) = true)
+    (hk' : validKey (suffix k' 0) = true)
+    (h1 : lexLt (suffix k 0) (suffix k' 0) = true) (h2 : lexLt (suffix k' 0) (suffix k maxSuffix) = true) :
+    (run .io [] [] [.add k [118], .add k' [119], .last k]).1 = [(.bool true, []), (.bool true, []), (.opt none, [])] ∧
+    specRun false [] (fun _ => []) [.add k [118], .add k' [119], .last k] =
+      some [(.bool true, []), (.bool true, []), (.opt (some [118]), [])] :=
+  last_history_fails k k' hne hk hk' h1 h2
+
+/-! ## branches, counts (public methods beyond the per-key ones) -/
+
+/-- plain getItemIter(top) / getFullItemIter(top): exactly the dictionary's items whose key starts with `top`, each key once -/
+theorem plain_getItemIter_spec (db : Db) (σ : PSt) (hr : PRel db σ) (top : Bytes) :
+    ∃ l, step .plain db (.itemsTop top) = (db, .pairs l) ∧ step .plain db (.fullItems top) = (db, .pairs l) ∧ Sorted l ∧
+      ∀ k v, (k, v) ∈ l ↔ σ k = some v ∧ top <+: k := plain_itemsTop_spec hr top
+
+/-- plain cntAll: the number of keys of the dictionary -/
+theorem plain_cntAll_is_size (db : Db) (σ : PSt) (hr : PRel db σ) :
+    ∃ ks : List Bytes, ks.Nodup ∧ (∀ k, k ∈ ks ↔ (σ k).isSome = true) ∧ step .plain db .cntAll = (db, .nat ks.length) :=
+  plain_cntAll_spec hr
+
+/-- plain trim(top): deletes exactly the keys with that prefix; True iff there was one -/
+theorem plain_trim_is_prefix_delete (db : Db) (σ : PSt) (hr : PRel db σ) (top : Bytes) :
+    ∃ db' b, step .plain db (.trim top) = (db', .bool b) ∧ PRel db' (fun k => if top <+: k then none else σ k) ∧
+      (b = true ↔ ∃ k, top <+: k ∧ (σ k).isSome = true) := plain_trim_spec hr top
+
+/-- io kinds, NO guard: getItemIter() of the whole sub-db lists, for every key, the dictionary's values in order;
+cntAll is the number of those items -/
+theorem io_items_cntAll_spec (kind : Kind) (hkind : kind ≠ .plain) (db : Db) (hinv : Inv db) :
+    ∃ l, step kind db .items = (db, .pairs l) ∧ step kind db (.itemsTop []) = (db, .pairs l) ∧
+      step kind db .cntAll = (db, .nat l.length) ∧
+      ∀ k, (l.filter (fun p => p.1 == k)).map (·.2) = absIo db k := io_items_spec hkind hinv
+
+/-- io kinds, NO guard: trim() of everything leaves the empty sub-db -/
+theorem io_trim_all_empties (kind : Kind) (db : Db) (hinv : Inv db) :
+    step kind db (.trim []) = ([], .bool (!db.isEmpty)) := io_trim_all_spec hinv
 
 /-! ## unguarded: what holds for EVERY key set (also the F39 ones) -/
 
@@ -137,9 +225,12 @@ theorem f39_keys_not_sepfree : ¬ SepFree (fun k => k = kK ∨ k = kK0) := by
   intro h
   exact h kK kK0 (Or.inl rfl) (Or.inr rfl) (by decide) (by decide +kernel)
 
-/-- getLast under the guard (partial): the last element of the dictionary's list -/
-theorem getLast_partial (db : Db) (hinv : Inv db) (k : Bytes) (hnc : NoChild k db) :
-    getIoValLast db k = .ok (absIo db k).getLast? := getIoValLast_spec hinv hnc
+/-- … nor the exact guard at the bound of the witness history (4 ordinals) -/
+theorem f39_keys_not_exact : ¬ ExactAt (fun k => k = kK ∨ k = kK0) kK 4 := by
+  intro h
+  rcases h kK0 (Or.inr rfl) (by decide +kernel) with h | h
+  · revert h; decide +kernel
+  · revert h; decide +kernel
 
 /-- WITNESS (K2): with keys "a" and "a.b", `getLast "a"` answers None although "a" holds a value -/
 theorem getLast_fails_without_guard :
@@ -169,6 +260,11 @@ example : SepFree exK := by
 example : ∀ k, exK k → validKey (suffix k 0) = true := by
   intro k hk
   rcases hk with rfl | rfl | rfl | rfl | rfl <;> decide +kernel
+
+/-- the exact guard admits key sets the simple one rejects: "a" and "a.b" for histories without getLast("a") -/
+example : ∀ k, (fun k => k = [97] ∨ k = [97, 46, 98]) k → ExactAt (fun k => k = [97] ∨ k = [97, 46, 98]) k 1000 := by
+  intro k hk k' hk' hne
+  rcases hk with rfl | rfl <;> rcases hk' with rfl | rfl <;> first | exact absurd rfl hne | decide +kernel
 
 /-- a non-trivial history over that key set to which `ioset_refines_dict_partial` applies -/
 example : (specRun true [[97], [97, 98]] (fun _ => [])
